@@ -138,21 +138,39 @@ func (st *State) assume(t Term) {
 	st.asms = append(st.asms, t)
 }
 
-func heapSym(sort string) string { return "H_" + sanitize(sort) }
+func heapSym(key string) string {
+	if strings.HasPrefix(key, "g:") {
+		return "G_" + sanitize(key[2:])
+	}
+	return "H_" + sanitize(key)
+}
 
-func (st *State) heapOf(hs map[string]*heapNode, sort string) *heapNode {
-	if h, ok := hs[sort]; ok {
+func isGhostAddr(addr Term) bool { return strings.HasPrefix(addr, "(mkref (- (- ") }
+
+// heapKey: ghost cells are kept in arrays of their own, so that updates of
+// ghost state never create a new version of the program's memory.
+func heapKey(sort string, addr Term) string {
+	if isGhostAddr(addr) {
+		return "g:" + sort
+	}
+	return sort
+}
+
+func keySort(key string) string { return strings.TrimPrefix(key, "g:") }
+
+func (st *State) heapOf(hs map[string]*heapNode, key string) *heapNode {
+	if h, ok := hs[key]; ok {
 		return h
 	}
 	// the initial heap of this sort (shared by all states of the function)
-	name := heapSym(sort) + "_0"
-	st.x.d.Declare(name, "(Array Ref "+sort+")")
-	h := st.x.initHeaps[sort]
+	name := heapSym(key) + "_0"
+	st.x.d.Declare(name, "(Array Ref "+keySort(key)+")")
+	h := st.x.initHeaps[key]
 	if h == nil {
-		h = &heapNode{name: name, sort: sort, allocAt: "alloc_0"}
-		st.x.initHeaps[sort] = h
+		h = &heapNode{name: name, sort: keySort(key), allocAt: "alloc_0"}
+		st.x.initHeaps[key] = h
 	}
-	hs[sort] = h
+	hs[key] = h
 	return h
 }
 
@@ -183,11 +201,15 @@ func (st *State) loadIn(sn *snapshot, sort string, addr Term) Term {
 	if sn != nil {
 		hs = sn.heaps
 	}
-	h := st.heapOf(hs, sort)
+	key := heapKey(sort, addr)
+	if st.x.inRec > 0 && key != sort {
+		panic(specErr{"a recursive spec fn may not read ghost state (its value is keyed by the program memory only)"})
+	}
+	h := st.heapOf(hs, key)
 	if sn != nil {
 		// make sure both views agree on the initial heap
-		if _, ok := st.heaps[sort]; !ok {
-			st.heaps[sort] = st.x.initHeaps[sort]
+		if _, ok := st.heaps[key]; !ok {
+			st.heaps[key] = st.x.initHeaps[key]
 		}
 	}
 	// store forwarding: when the cell was written on this path at a
@@ -288,20 +310,21 @@ func pathSteps(p Term) ([]string, Term) {
 }
 
 func (st *State) storeLeaf(sort string, addr, v Term) {
-	h := st.heapOf(st.heaps, sort)
-	name := st.x.d.FreshDef(heapSym(sort), "(Array Ref "+sort+")", tStore(h.name, addr, v))
-	st.heaps[sort] = &heapNode{name: name, sort: sort, kind: 1, prev: h, addr: addr, val: v}
+	key := heapKey(sort, addr)
+	h := st.heapOf(st.heaps, key)
+	name := st.x.d.FreshDef(heapSym(key), "(Array Ref "+sort+")", tStore(h.name, addr, v))
+	st.heaps[key] = &heapNode{name: name, sort: sort, kind: 1, prev: h, addr: addr, val: v}
 }
 
-func (st *State) havocHeap(sort string, keep func(addr Term) Term) {
-	h := st.heapOf(st.heaps, sort)
-	name := st.x.d.FreshConst(heapSym(sort), "(Array Ref "+sort+")")
-	st.heaps[sort] = &heapNode{name: name, sort: sort, kind: 2, prev: h, keep: keep, allocAt: st.pendingAlloc}
+func (st *State) havocHeap(key string, keep func(addr Term) Term) {
+	h := st.heapOf(st.heaps, key)
+	name := st.x.d.FreshConst(heapSym(key), "(Array Ref "+keySort(key)+")")
+	st.heaps[key] = &heapNode{name: name, sort: keySort(key), kind: 2, prev: h, keep: keep, allocAt: st.pendingAlloc}
 }
 
 func (st *State) havocAll(keep func(addr Term) Term) {
 	// every heap sort known to the function so far, plus the standard ones
-	for _, s := range []string{"Bool", "Int", "String", "Ref"} {
+	for _, s := range []string{"Bool", "Int", "String", "Ref", "g:Bool", "g:Int", "g:String", "g:Ref"} {
 		st.heapOf(st.heaps, s)
 	}
 	for s := range st.x.initHeaps {
